@@ -329,6 +329,26 @@ func init() {
 	vx("CronValid", func(ex *Exec, fr *Frame, a []Value, s ssa.Instruction) Value {
 		return ex.tt.UF("cron_valid", SBool, a[0].(*Term))
 	})
+	vx("Like", func(ex *Exec, fr *Frame, a []Value, s ssa.Instruction) Value {
+		return ex.tt.UF("sql_like", SBool, a[0].(*Term), a[1].(*Term))
+	})
+	vx("LikePattern", func(ex *Exec, fr *Frame, a []Value, s ssa.Instruction) Value {
+		// the '*' -> '%' rewrite the handlers apply to the client pattern
+		p := a[0].(*Term)
+		if c, ok := p.StrVal(); ok {
+			return ex.tt.Str(strings.ReplaceAll(c, "*", "%"))
+		}
+		return ex.tt.UF("replaceall_"+sanitize("*")+"_"+sanitize("%"), SString, p)
+	})
+	vx("TemplateTrouble", func(ex *Exec, fr *Frame, a []Value, s ssa.Instruction) Value {
+		// true iff a template failed to parse or execute on this path
+		for _, t := range ex.trace {
+			if t == "template-parses=0" || t == "template-exec-fails=1" {
+				return ex.tt.Bool(true)
+			}
+		}
+		return ex.tt.Bool(false)
+	})
 	vx("HasPrefix", func(ex *Exec, fr *Frame, a []Value, s ssa.Instruction) Value {
 		return ex.tt.PrefixOf(a[1].(*Term), a[0].(*Term))
 	})
